@@ -105,27 +105,45 @@ class Build:
         inc = ['-I', os.path.join(ROOT, 'model'), '-I', self.gen, '-I', os.path.join(ROOT, 'contracts')]
         self.inc = inc
         self.bin = store
-        if not os.path.exists(os.path.join(store, 'READY')):
-            tmp = tempfile.mkdtemp(prefix='gen.', dir=store_root)
-            os.makedirs(os.path.join(tmp, 'gen'))
-            open(os.path.join(tmp, 'gen', 'low.h'), 'w').write(header)
-            open(os.path.join(tmp, 'gen', 'low.c'), 'w').write(text)
-            try:
-                os.rename(tmp, store)
-            except OSError:
-                shutil.rmtree(tmp, ignore_errors=True)   # another run created the same generation concurrently
-            for src, out, defs in ((os.path.join(self.gen, 'low.c'), 'low.gb', []),
-                                   (os.path.join(self.gen, 'low.c'), 'low_trk.gb', ['-DVF_TRACK_ALLOC']),
-                                   (os.path.join(ROOT, 'model', 'vf_std.c'), 'vf_std.gb', []),
-                                   (os.path.join(ROOT, 'model', 'vf_std.c'), 'vf_std_trk.gb', ['-DVF_TRACK_ALLOC']),
-                                   # the model with its own loop contracts (model self-verification units only)
-                                   (os.path.join(ROOT, 'model', 'vf_std.c'), 'vf_std_lc.gb', ['-DVF_MODEL_LOOP_CONTRACTS'])):
+        NOLC = ['-D__CPROVER_loop_invariant(...)=', '-D__CPROVER_decreases(...)=', '-D__CPROVER_assigns(...)=']
+        self.low_error = None
+        if not os.path.exists(os.path.join(store, 'READY2')):
+            if not os.path.isdir(store):
+                tmp = tempfile.mkdtemp(prefix='gen.', dir=store_root)
+                os.makedirs(os.path.join(tmp, 'gen'))
+                open(os.path.join(tmp, 'gen', 'low.h'), 'w').write(header)
+                open(os.path.join(tmp, 'gen', 'low.c'), 'w').write(text)
+                try:
+                    os.rename(tmp, store)
+                except OSError:
+                    shutil.rmtree(tmp, ignore_errors=True)   # another run created the same generation concurrently
+            # low_nolc*.gb: the lowered code with the spliced loop contracts compiled away - what the bmc-mode units link
+            # (they never apply loop contracts).  A change that renames a local named by a loop contract then leaves
+            # only the units that need that contract undecided, not every unit.
+            for src, out, defs, fatal in (
+                    (os.path.join(self.gen, 'low.c'), 'low_nolc.gb', NOLC, True),
+                    (os.path.join(self.gen, 'low.c'), 'low_nolc_trk.gb', NOLC + ['-DVF_TRACK_ALLOC'], True),
+                    (os.path.join(self.gen, 'low.c'), 'low.gb', [], False),
+                    (os.path.join(self.gen, 'low.c'), 'low_trk.gb', ['-DVF_TRACK_ALLOC'], False),
+                    (os.path.join(ROOT, 'model', 'vf_std.c'), 'vf_std.gb', [], True),
+                    (os.path.join(ROOT, 'model', 'vf_std.c'), 'vf_std_trk.gb', ['-DVF_TRACK_ALLOC'], True),
+                    # the model with its own loop contracts (model self-verification units only)
+                    (os.path.join(ROOT, 'model', 'vf_std.c'), 'vf_std_lc.gb', ['-DVF_MODEL_LOOP_CONTRACTS'], True)):
+                if os.path.exists(os.path.join(store, out)):
+                    continue
                 tmpo = os.path.join(store, out + '.%d.tmp' % os.getpid())
                 rc, so, se, _ = sh(['goto-cc', '-D__CPROVER__VF'] + defs + inc + ['-c', src, '-o', tmpo])
                 if rc != 0:
-                    raise Undecided('goto-cc failed on %s:\n%s' % (src, (so + se)[-3000:]))
+                    if fatal:
+                        raise Undecided('goto-cc failed on %s:\n%s' % (src, (so + se)[-3000:]))
+                    open(os.path.join(store, 'LOW_ERROR'), 'w').write((so + se)[-3000:])
+                    continue
                 os.replace(tmpo, os.path.join(store, out))
-            open(os.path.join(store, 'READY'), 'w').write('ok')
+            open(os.path.join(store, 'READY2'), 'w').write('ok')
+        if os.path.exists(os.path.join(store, 'LOW_ERROR')):
+            # the lowered code does not compile with its loop contracts in place (a contract names something the code no
+            # longer has): units that link it are undecided, bmc-mode units go on
+            self.low_error = open(os.path.join(store, 'LOW_ERROR')).read()
         os.utime(store, None)
         return self
 
@@ -236,7 +254,7 @@ def unit_cmds(u, b, out):
     igb = os.path.join(out, 'i.gb')
     trk = bool(u.get('track_alloc'))
     cc = ['goto-cc', '-D__CPROVER__VF'] + (['-DVF_TRACK_ALLOC'] if trk else []) + [('-D' + d) for d in u.get('defines', [])] + \
-        b.inc + [os.path.join(b.bin, 'low_trk.gb' if trk else 'low.gb'), os.path.join(b.bin, 'vf_std_lc.gb' if u.get('model_loops') else ('vf_std_trk.gb' if trk else 'vf_std.gb')),
+        b.inc + [os.path.join(b.bin, (('low_nolc_trk.gb' if trk else 'low_nolc.gb') if u.get('mode') == 'bmc' else ('low_trk.gb' if trk else 'low.gb'))), os.path.join(b.bin, 'vf_std_lc.gb' if u.get('model_loops') else ('vf_std_trk.gb' if trk else 'vf_std.gb')),
                  src, '--function', u['harness'], '-o', ugb]
     gi = ['goto-instrument']
     if u.get('mode') == 'bmc':
@@ -306,6 +324,10 @@ def run_unit(u, b, keep=None, trace=False, use_cache=True):
               'tag': 'no-mutable-static-storage', 'clause': 'every variable of static storage duration defined by the library is const'}
         return {'unit': u['name'], 'obligations': [ob], 'error': None, 'solver_s': 0.0, 'wall_s': time.time() - t0, 'cached': False,
                 'backend': 'clang AST (extraction)'}
+    if getattr(b, 'low_error', None) and u.get('mode') != 'bmc':
+        return {'unit': u['name'], 'obligations': [], 'solver_s': 0.0, 'wall_s': 0.0, 'cached': False, 'backend': '-',
+                'error': 'the lowered code does not compile with the loop contracts of contracts/loops.json in place '
+                         '(a contract no longer matches the code): ' + b.low_error[-600:]}
     out = tempfile.mkdtemp(prefix='u_%s.' % u['name'], dir=b.dir)
     res = {'unit': u['name'], 'obligations': [], 'error': None, 'solver_s': 0.0, 'cached': False,
            'backend': {'kissat': 'kissat (external SAT solver)', 'minisat': 'cbmc built-in SAT (minisat2)',
